@@ -557,6 +557,7 @@ def h_header(ffi: int, lod: int, rflags: int, vi: int) -> None:
     v = vtf.VTF(4, 4, version=(7, minor), fmt=vtf.ImageFormats.RGBA8888, thumb_fmt=vtf.ImageFormats.NONE)
     v.first_frame_index = ffi
     v.resources[vtf.ResourceID.LOD_SETTINGS] = vtf.Resource(rflags | 0x02, lod)
+    v.resources[b"XYZ"] = vtf.Resource(rflags & 0xFD, b"payload!")      # stored out of line: every flag bit but 'no data'
     f = binio.ModelBytesIO() if _TRACED else __import__("io").BytesIO()
     v.save(f)
     first = f.getvalue()
@@ -567,6 +568,9 @@ def h_header(ffi: int, lod: int, rflags: int, vi: int) -> None:
     r = v2.resources.get(vtf.ResourceID.LOD_SETTINGS)
     check(r is not None and r.data == lod, "integer resource value", None if r is None else r.data)
     check(r.flags == (rflags | 0x02), "resource flag byte", r.flags)
+    rb = v2.resources.get(b"XYZ")
+    check(rb is not None and rb.data == b"payload!", "out-of-line resource data", None if rb is None else rb.data)
+    check(rb.flags == (rflags & 0xFD), "out-of-line resource flag byte", rb.flags)
     g = binio.ModelBytesIO() if _TRACED else __import__("io").BytesIO()
     v2.save(g)
     check(g.getvalue() == first, "second save differs")
@@ -605,7 +609,7 @@ def obligations(tier):
             bound="sizes 1..8, frames/depth <= 2, cubemaps, versions 7.2-7.5 by index; concrete pixels"),
         Obl("mipmaps.witness", MOD, "h_mipmaps_w", budget_s=300, per_path_s=120, witness=True),
         Obl("header", MOD, "h_header", budget_s=900, per_path_s=120,
-            desc="first frame index, an integer resource value and its flag byte as solver variables through save/read (versions 7.3-7.5)",
+            desc="first frame index, an integer resource value and the flag bytes of an inline and an out-of-line resource as solver variables through save/read (versions 7.3-7.5)",
             bound="all 16-bit / 32-bit / 8-bit values"),
         Obl("header.witness", MOD, "h_header_w", budget_s=300, per_path_s=120, witness=True),
         Obl("structure.witness", MOD, "h_structure_w", slices=[{"fmt": "RGBA8888"}], budget_s=300, per_path_s=120, witness=True),
